@@ -205,8 +205,18 @@ def sink_obligations(ctx, tf, clause):
     for e, f in g.calls:
         cs = ctx.r.site_of.get(id(e))
         if cs is not None and cs.kind == "ctor" and cs.recv_types.qual in stmt_like:
+            def value_tainted(x):
+                """the value of x depends on the threshold: x itself, or a part of it - but not the arguments of a call of a
+                package function inside it (what such a call returns is followed through the callee: its result node is x's)"""
+                if ("e", id(x)) in tf.T:
+                    return True
+                if isinstance(x, ast.Call):
+                    inner = ctx.r.site_of.get(id(x))
+                    if inner is not None and inner.targets and inner.kind in ("func", "self", "typed", "static", "slot", "ctor"):
+                        return False
+                return any(value_tainted(c) for c in ast.iter_child_nodes(x) if isinstance(c, ast.expr))
             for a in list(e.args) + [k.value for k in e.keywords]:
-                if g.expr_tainted(a, tf.T):
+                if value_tainted(a):
                     obs.append(Ob(clause, "R-FLOW", "R-FLOW|threshold-into-model|%s|%s" % (f.short, f.key(a)[:40]), f.loc(e), False,
                                   "a %s field is computed from the threshold (`%s`)" % (cs.recv_types.name, norm(a)[:40])))
     if not obs or all(o.ok for o in obs):
